@@ -8,8 +8,10 @@
    id 0 = absent / empty, id 1 = "default".
 
    Wire format (all lists positional):
-     tyinfo   (cls id strip)          cls 0 none | 1 `any` | 2 other; strip = () or (id of the
-                                      annotation without a trailing `| undefined`)
+     tyinfo   (cls id strip paren)    cls 0 none | 1 `any` | 2 other; strip = () or (id of the
+                                      annotation without a trailing `| undefined`); paren = the type
+                                      is a function / constructor / conditional type (needs
+                                      parentheses as a member of a union)
      ecls     (0) absent | (1) placeholder `{} as never` / `[] as never` / `[] as never[]`
               | (2) leaf: this, identifier, literal | (3 e...) array / object / unary / update /
               binary / conditional / member chain / await / template / `as const` / `!` /
@@ -49,7 +51,7 @@
 From DG Require Import Base.Util Base.Sexp.
 
 Inductive tycls := TyNone | TyAny | TyOther.
-Record tyinfo := { ty_cls : tycls; ty_id : N; ty_strip : option N }.
+Record tyinfo := { ty_cls : tycls; ty_id : N; ty_strip : option N; ty_paren : bool }.
 
 Inductive fkind := FDecl | FExpr | FArrow | FMethod | FGetter | FSetter | FCtor.
 Inductive patcls := PIdent | PArray | PObject | PRest | POtherPat.
@@ -245,10 +247,11 @@ Definition dec_tycls (n : N) : option tycls :=
 
 Definition dec_tyinfo (s : sexp) : option tyinfo :=
   match s with
-  | L [A c; A i; st] =>
+  | L [A c; A i; st; pa] =>
       do c' <- dec_tycls c;
       do st' <- as_option as_atom st;
-      Some {| ty_cls := c'; ty_id := i; ty_strip := st' |}
+      do pa' <- as_bool pa;
+      Some {| ty_cls := c'; ty_id := i; ty_strip := st'; ty_paren := pa' |}
   | _ => None
   end.
 
